@@ -56,8 +56,19 @@ def _rec(mech, what, wit):
 def _post_effective(self, orig_id, result):
     STATS["effective"] += 1
     sh = shadow_of(self)
+    # scope by where the id should be, not by what was answered
+    exp = orig_id
+    while True:
+        e2 = orig_id + sum(1 for i in sh.injected if i <= exp)
+        if e2 == exp:
+            break
+        exp = e2
+    if exp <= sh.evicted_max:
+        return True   # belongs below an aged-out injection: outside the property's caveat
     if result <= sh.evicted_max:
-        return True   # older than an aged-out injection: outside the property's caveat
+        _rec("effective-id-below-aged-out-injection", "an id that belongs above every aged-out injection was translated to a wire "
+             "id at or below one", {"orig": orig_id, "wire": result, "expected": exp})
+        return True
     if result in sh.injected:
         _rec("effective-id-is-injected", "translation yielded a wire id used for an injected packet",
              {"orig": orig_id, "wire": result, "injected": sorted(sh.injected)[-8:]})
